@@ -340,6 +340,30 @@ def op_reject(w, ins):
         if what is None:
             return 'skip'
         _after(w, ok, v, what)
+    elif kind == 'ctor_unknown':
+        # `Function(n, bdd)` for an `n` that is not a node: refused.  The
+        # exception (and with it the half-built object in the traceback's
+        # frame) is kept by the caller, as an error log or pytest would, and
+        # goes away only at a later scheduler point
+        if raw:
+            return 'skip'
+        n = max(w.snapshot(m).succ) + 1 + ins.get('pos', 0) % 3
+        if ins.get('neg'):
+            n = -n
+        F = D.autoref.Function
+        w.cur_info['raised'] = None
+        try:
+            F(n, g.api)
+            w.stats['reject_accepted'] += 1
+        except Exception as e:
+            cell = [e]
+            cell.append(cell)           # parked; finalized by the scheduler
+            del e, cell
+            w.cur_info['raised'] = 'ValueError'
+            w.cur_info['expected_raise'] = True
+            w.stats['rejected'] += 1
+            w.stats['rejected:ctor_unknown'] += 1
+        w.touch()
     elif kind == 'swap_bad':
         # swap with arguments it must refuse
         if not raw:
@@ -382,7 +406,7 @@ def op_reject(w, ins):
 
 KINDS = ['var', 'let', 'quant', 'cube', 'formula_name', 'formula_syntax', 'formula_node',
          'foreign', 'unknown_node', 'operator', 'arity', 'level', 'order', 'undeclare', 'extension',
-         'load_clash', 'copy_missing_var', 'image_unknown_node', 'load_bad_pickle', 'swap_bad', 'bad_everywhere', 'bad_everywhere']
+         'load_clash', 'copy_missing_var', 'image_unknown_node', 'load_bad_pickle', 'swap_bad', 'bad_everywhere', 'bad_everywhere', 'ctor_unknown']
 
 
 def gen_reject(w, r, cfg):
